@@ -53,7 +53,11 @@ def check(run):
     loop(R)
     zeroread(R)
     nolock(R)
-    from . import C14, C08
+    from . import C14, C08, C01, C05
+    R.rule('C18.intact', 'what is drained is delivered intact: no view of the reused receive buffer outlives the read; the '
+                         'fixed-size read requests are created per read (a shared request keeps a stale outstanding count)', 4)
+    C01.alias(R, RID='C18.intact')
+    C05.awaitables_fresh(R, RID='C18.intact')
     R.rule('C18.replies', 'the automatic replies of a cycle cannot abort it: a Pong that write() refuses is swallowed; a '
                           'Close echo of any legal size is written in the cycle that read the Close', 3)
     C14.swallow(R, RID='C18.replies')
